@@ -9,6 +9,14 @@ open PedVerif.Validate
 #print axioms external_only_when_absent
 #print axioms ignore_input_ignores
 #print axioms byName_ok_congr
+#print axioms byName_congr
+#print axioms items_ok_of_byName_ok
+#print axioms byName_eq_bindOnes
+#print axioms binding_is_by_name_converse
+#print axioms byName_error_blocks_body
+#print axioms call_style_independent_runs
+#print axioms converse_needs_receiverIsPositional
+#print axioms converse_needs_distinct_parameter_names
 #print axioms dispatch_ok_bindDict
 #print axioms dispatch_eq_bindDict
 #print axioms callWith_split_eq
